@@ -23,6 +23,8 @@ func main() {
 		cmdCheck(os.Args[2:])
 	case "replay":
 		cmdReplay(os.Args[2:])
+	case "mods":
+		cmdMods(os.Args[2:])
 	case "loops":
 		cmdLoops(os.Args[2:])
 	case "silent":
